@@ -117,6 +117,13 @@ _log_lines = []
 LOG_THROUGH = None      # None | "file" | "syslog": also pass every log line through the real logging function of that method
 
 
+def _syslog_standin(prio, m):
+    """What syslog.syslog() asks of its message (measured on CPython 3.12): text UTF-8 can encode, with no NUL in it."""
+    m.encode("utf-8")
+    if "\0" in m:
+        raise ValueError("embedded null character")
+
+
 def _log(msg):
     _log_lines.append(msg)
     if LOG_THROUGH == "file":
@@ -129,7 +136,7 @@ def _log(msg):
         finally:
             sys.stdout = old
     elif LOG_THROUGH == "syslog":
-        logger.syslogfunc = lambda prio, m: m.encode("utf-8")     # syslog(3) takes text it can encode
+        logger.syslogfunc = _syslog_standin
         logger.priority = 0
         logger.log_syslog(msg)
 
